@@ -4,6 +4,7 @@ import (
 	"fmt"
 	"go/ast"
 	"go/parser"
+	"go/token"
 	"go/types"
 	"strings"
 )
@@ -511,15 +512,26 @@ func (r *UnitRun) evalAppend(st *State, e *ast.CallExpr) Val {
 	// extent, which we enforce by requiring that the appended-to slice is a locally allocated object covering its
 	// whole backing store (off == 0) or an immutable value.
 	if s.Obj != nil && s.Obj.param {
-		r.obligeStatic(st, "frame", fmt.Sprintf("append%d", r.callOrd[e]), false, e, "append to a parameter slice may write its backing store")
+		if id, ok := e.Args[0].(*ast.Ident); ok && r.capturedAppendOK(id) {
+			r.obligeStatic(st, "frame", fmt.Sprintf("append%d", r.callOrd[e]), true, e, "append to the captured variable "+id.Name+" (in modifies; the enclosing function never aliases its backing store)")
+		} else {
+			r.obligeStatic(st, "frame", fmt.Sprintf("append%d", r.callOrd[e]), false, e, "append to a parameter slice may write its backing store")
+		}
 	}
 	o := r.newObj("append", es, OwnFresh)
 	na := r.fresh("appended", fmt.Sprintf("(Array Int %s)", es))
 	oldArr := r.sliceArr(st, s)
 	qcount++
 	k := fmt.Sprintf("k!q%d", qcount)
-	st.assume(fmt.Sprintf("(forall ((%s Int)) (! (=> (and (<= 0 %s) (< %s %s)) (= (select %s %s) (select %s (+ %s %s)))) :pattern ((select %s %s))))",
-		k, k, k, s.Len, na, k, oldArr, s.Off, k, na, k))
+	if s.Off == "0" {
+		// both directions: a fact known about an old element carries over to the new array without a term of the new array
+		// having to exist first (existential goals over the appended slice)
+		st.assume(fmt.Sprintf("(forall ((%s Int)) (! (=> (and (<= 0 %s) (< %s %s)) (= (select %s %s) (select %s %s))) :pattern ((select %s %s)) :pattern ((select %s %s))))",
+			k, k, k, s.Len, na, k, oldArr, k, na, k, oldArr, k))
+	} else {
+		st.assume(fmt.Sprintf("(forall ((%s Int)) (! (=> (and (<= 0 %s) (< %s %s)) (= (select %s %s) (select %s (+ %s %s)))) :pattern ((select %s %s))))",
+			k, k, k, s.Len, na, k, oldArr, s.Off, k, na, k))
+	}
 	for _, f := range setElems(na, s.Len) {
 		st.assume(f)
 	}
@@ -854,6 +866,12 @@ func (r *UnitRun) havocModified(st *State, callee *Unit, m string, bound map[str
 		// captured variable of a closure called from its parent
 		if obj, ok := st.names[m]; ok {
 			cur := st.vars[obj]
+			if cur.K == KSlice && callee.rebinds(m) {
+				// the closure assigns the captured slice variable itself (e.g. order = append(order, x)): afterwards the
+				// variable holds an unknown slice (the callee's postcondition says what is known about it)
+				st.bind(obj, r.havocVal(st, cur, obj.Type(), m))
+				return
+			}
 			if cur.K == KSlice && cur.S.Obj != nil {
 				st.arrs[cur.S.Obj] = r.fresh("havoc_"+m, fmt.Sprintf("(Array Int %s)", cur.S.Obj.elem))
 				return
@@ -1003,4 +1021,110 @@ func (r *UnitRun) evalSlicesPkg(st *State, name string, e *ast.CallExpr) Val {
 			r.srcElemTerm(st, a.S, k), x.T), Go: types.Typ[types.Bool]}
 	}
 	panic(toolLimit("call of external function slices." + name))
+}
+
+// rebinds: the body of the unit (a function literal) assigns the variable called name as a whole
+func (u *Unit) rebinds(name string) bool {
+	if u.Body == nil {
+		return false
+	}
+	found := false
+	ast.Inspect(u.Body, func(n ast.Node) bool {
+		if as, ok := n.(*ast.AssignStmt); ok && as.Tok != token.DEFINE {
+			for _, l := range as.Lhs {
+				if id, ok := l.(*ast.Ident); ok && id.Name == name {
+					found = true
+				}
+			}
+		}
+		return !found
+	})
+	return found
+}
+
+// capturedAppendOK: id names a slice variable captured by the closure under verification, the closure's modifies clause
+// lists it, and in the outermost enclosing function the variable is only indexed, measured, ranged over, assigned,
+// appended to itself (x = append(x, ...)) or returned - so no other slice shares its backing store and writing into its
+// spare capacity is invisible to everybody else.
+func (r *UnitRun) capturedAppendOK(id *ast.Ident) bool {
+	u := r.unit
+	if u.Lit == nil {
+		return false
+	}
+	obj, _ := r.info.ObjectOf(id).(*types.Var)
+	if obj == nil {
+		return false
+	}
+	// declared outside the literal, inside a function: a captured local (or named result) of an enclosing function
+	captured := (obj.Pos() < u.Lit.Pos() || obj.Pos() > u.Lit.End()) && obj.Parent() != nil && obj.Parent() != obj.Pkg().Scope()
+	listed := false
+	for _, m := range u.Modifies {
+		if m == id.Name {
+			listed = true
+		}
+	}
+	if !captured || !listed {
+		return false
+	}
+	root := u
+	for root.Parent != nil {
+		root = root.Parent
+	}
+	if root.Body == nil {
+		return false
+	}
+	ok := true
+	var stack []ast.Node
+	ast.Inspect(root.Body, func(n ast.Node) bool {
+		if n == nil {
+			stack = stack[:len(stack)-1]
+			return true
+		}
+		if x, isId := n.(*ast.Ident); isId && r.info.ObjectOf(x) == obj && len(stack) > 0 {
+			switch p := stack[len(stack)-1].(type) {
+			case *ast.IndexExpr:
+				if p.X != x {
+					ok = false
+				}
+			case *ast.RangeStmt:
+				if p.X != x {
+					ok = false
+				}
+			case *ast.ReturnStmt, *ast.ValueSpec:
+			case *ast.AssignStmt:
+				onLeft := false
+				for _, l := range p.Lhs {
+					if l == x {
+						onLeft = true
+					}
+				}
+				if !onLeft {
+					ok = false
+				}
+			case *ast.CallExpr:
+				fn, _ := p.Fun.(*ast.Ident)
+				var b *types.Builtin
+				if fn != nil {
+					b, _ = r.info.ObjectOf(fn).(*types.Builtin)
+				}
+				switch {
+				case b != nil && (b.Name() == "len" || b.Name() == "cap"):
+				case b != nil && b.Name() == "append" && p.Args[0] == x && len(stack) > 1:
+					as, isAs := stack[len(stack)-2].(*ast.AssignStmt)
+					if !isAs || len(as.Lhs) != 1 || len(as.Rhs) != 1 || as.Rhs[0] != p {
+						ok = false
+					} else if l, isL := as.Lhs[0].(*ast.Ident); !isL || r.info.ObjectOf(l) != obj {
+						ok = false
+					}
+				default:
+					ok = false
+				}
+			default:
+				ok = false
+			}
+		}
+		stack = append(stack, n)
+		return true
+	})
+	return ok
 }
